@@ -420,7 +420,10 @@ func (engine) Body(r *simdrv.Run) {
 				in.Kind, in.Code = "read", r.Cfg(10)
 			case 0, 1, 2:
 				in.Kind = "end"
-				in.Code = r.Cfg(4) // 0,1: End(); 2: End(WithStackTrace(true)); 3: End(WithTimestamp(t))
+				in.Code = r.Cfg(5) // 0,1: End(); 2: End(WithStackTrace(true)); 3: End(WithTimestamp(t)); 4: deferred End of a panicking function
+				if in.Code == 4 {
+					in.Arg = u("panic")
+				}
 			case 3, 4:
 				in.Kind = "setattrs"
 				k := 2 + r.Cfg(2)
@@ -462,6 +465,15 @@ func (engine) Body(r *simdrv.Run) {
 		t := r.Cfg(nTasks)
 		plans[t][r.Cfg(len(plans[t]))].in.Kind = "provider-shutdown"
 		r.Res.Config["provider_shutdown"] = true
+		// (no End deferred by a panicking function in these runs: with execution tracing on, its outcome
+		// "no delivery" would have two explanations that the model cannot tell apart)
+		for _, pl := range plans {
+			for i := range pl {
+				if pl[i].in.Kind == "end" && pl[i].in.Code == 4 {
+					pl[i].in.Code = 0
+				}
+			}
+		}
 	}
 	r.Res.Config["spans"] = nSpans
 	r.Res.Config["procs"] = nProcs
@@ -528,6 +540,16 @@ func (engine) Body(r *simdrv.Run) {
 				case "end":
 					w.curEnd[name] = &out
 					switch in.Code {
+					case 4:
+						// "defer span.End()" in a function that panics: End records the panic as an exception event,
+						// ends the span and lets the panic go on (after seeded change C10-m, which drops the span
+						// lock while it formats the panic value and does not look again whether the span still records)
+						r.Fault("end-deferred-by-a-panicking-function")
+						func() {
+							defer func() { _ = recover() }()
+							defer sp.End()
+							panic(in.Arg)
+						}()
 					case 2:
 						sp.End(trace.WithStackTrace(true))
 					case 3:
@@ -622,6 +644,17 @@ func (engine) Body(r *simdrv.Run) {
 				}
 				in.Lax = w.shutInv != 0
 				if in.Kind != "unreg-extra" && in.Kind != "reg-extra" && in.Kind != "read" && in.Kind != "provider-shutdown" {
+					if in.Kind == "end" && in.Code == 4 {
+						// End deferred by a panicking function = record the panic as an exception event, then end the
+						// span: two steps (with execution tracing on, End gives the span lock up in between, so other
+						// operations may take effect there), entered into the history as two operations over the same
+						// interval. Porcupine may also order them the other way round, which the code never does:
+						// laxer than the code, never stricter.
+						ev := in
+						ev.Kind, ev.Arg, ev.Code = "addevent", "exception:"+in.Arg, 0
+						w.hist = append(w.hist, porcupine.Operation{ClientId: 100 + t, Input: ev, Call: int64(call), Output: opOut{}, Return: int64(ret)})
+						in.Code = 0
+					}
 					w.hist = append(w.hist, porcupine.Operation{ClientId: t, Input: in, Call: int64(call), Output: out, Return: int64(ret)})
 				}
 				r.Res.Ops++
